@@ -1013,7 +1013,7 @@ func runSearch(a map[string]string) {
 	}
 	// 2d. boundary: the call depth limit; 2e. history / concurrency; 2f. state-root metamorphic probe
 	setSchedule(cfgs[0])
-	for _, extra := range []func() (string, string){depthProbe, func() (string, string) { return historyProbe(r.Fork(), st) }, func() (string, string) { return rootProbe(r.Fork(), st, 40) }} {
+	for _, extra := range []func() (string, string){depthProbe, func() (string, string) { return historyProbe(r.Fork(), st, historyCfg(int(hx.SeedFromEnv()))) }, func() (string, string) { return rootProbe(r.Fork(), st, 40) }} {
 		var key, desc string
 		if pn := hx.Guard(func() string { key, desc = extra(); return "" }); pn != "" {
 			key, desc = "panic", pn
@@ -1092,4 +1092,21 @@ func realLoopOracle(h *harness, blk *block) string {
 		}
 	}
 	return ""
+}
+
+// historyCfg: the configuration of one history / concurrency round (varied between rounds, never within one)
+func historyCfg(i int) blockCfg {
+	if i < 0 {
+		i = -i
+	}
+	mn, rb := schedules["mainnet"], schedules["robin"]
+	all := []blockCfg{
+		{p013: true, p007: true, cbn: true},
+		{p013: false, p007: true, cbn: true},
+		{sched: "mainnet", height: mn.Proposal027Block + 10},
+		{sched: "mainnet", height: mn.Proposal013Block - 1},
+		{sched: "robin", height: rb.Proposal026Block - 1},
+		{sched: "robin", height: rb.Proposal007Block - 1},
+	}
+	return all[i%len(all)]
 }
